@@ -239,7 +239,9 @@ def build_loss(rec, derivative_keys=None):
     else:
         batch = PDENonStatioBatch(times_x_inside_batch=jnp.asarray(inside), times_x_border_batch=border)
     if any(len(c) for c in rec["ptab"]):
-        batch = append_param_batch(batch, {k: jnp.asarray(np.array(c, dtype=np.float64))[:, None] for k, c in zip(pkeys, rec["ptab"]) if len(c)})
+        # the tagged tables hold integers: in every other structure they are passed with an INTEGER dtype (a table of counts / indices)
+        pdt = np.int64 if rec.get("pint") else np.float64
+        batch = append_param_batch(batch, {k: jnp.asarray(np.array(c, dtype=pdt))[:, None] for k, c in zip(pkeys, rec["ptab"]) if len(c)})
     if rec["obsd"]["on"]:
         o = rec["obsd"]
         batch = append_obs_batch(batch, {"pinn_in": jnp.asarray(np.array(o["in"], dtype=np.float64)),
@@ -546,7 +548,7 @@ def run_gradbatch(task):
                     # built through the constructor: a pytree round trip (tree_at / jit) would re-sort the user's keys
                     l, _, _ = build_loss(rec, derivative_keys=DK(**{field[t]: mk_rev(m["mask"][k]) for k, t in enumerate(terms)}))
                 else:  # the string form of each term
-                    strs = {field[t]: m["strs"][k] for k, t in enumerate(terms)}
+                    strs = {field[t]: m["strs"][k] for k, t in enumerate(terms) if m["strs"][k] is not None}     # None: the argument is omitted
                     l = with_keys(DK.from_str(params=params, **strs))
                 (tot, tvd), g = jax.value_and_grad(lambda p: l.evaluate(p, batch), has_aux=True)(params)
                 tv = [tvd[t] for t in terms]
